@@ -82,7 +82,7 @@ def step (t : List String) : String :=
           match versionedMarshal s topo, encodeSnapshotPayload s true with
           | some full, some body =>
             if full = b then "full" else if body = b ∧ topo = 0 then "nosuffix" else "noncanon"
-          | _, _ => "noncanon"
+          | _, _ => "unencodable"
         s!"ok {showSnap s} {topo} {cls}"
   | ["enc", v, node, round, refs, txs, ts, sig, topo] =>
     match parseSnap v node round refs txs ts sig, topo.toNat? with
